@@ -637,6 +637,8 @@ def run(res: Results, idx: Index, tier: str) -> None:
     rule_g(res, idx)
     res.rule("R-C08h", "chain folds refresh the nodes they re-route, or admit only operators whose shape is re-derived elsewhere", floor=2)
     rule_h(res, idx)
+    res.rule("R-C08j", "the shape stamped on a plugin-emitted Transpose output is the operand's shape gathered through the permutation", floor=8)
+    rule_j(res, idx)
 
     # ---- R-C08b
     n_cv = 0
@@ -771,3 +773,70 @@ def rule_i(res: Results, idx: Index, rid: str = "R-C08i") -> None:
                 else:
                     res.ok(rid, site, key, "the stamped shape is the output aval's shape", fi.qualname)
     res.analysed["aval_shape_stamping_helpers"] = n
+
+
+# ---------------------------------------------------------------------------------------------- R-C08j
+def rule_j(res: Results, idx: Index) -> None:
+    """The shape a plugin stamps on the output of a Transpose it emits must be the operand's shape GATHERED through the
+    permutation (`out[i] = in[perm[i]]`).  For every `X = <builder>.Transpose(v, perm=P)` in the plugins whose result is
+    stamped with a shape S in the same function, S's definition is classified: the gather comprehension
+    `tuple(shape[i] for i in P)`; a helper `h(shape, perm)`, which is evaluated on a 3-cycle (a swap cannot tell gather from
+    scatter); a shape taken from the equation's output aval; anything else is UNRESOLVED."""
+    from ..symeval import EvalRaise, Evaluator, Unsupported
+    n = 0
+    for m in idx.product_modules():
+        if "/plugins/" not in m.rel or ".Transpose(" not in m.src:
+            continue
+        for fi in m.funcs.values():
+            du = defuse(fi.node)
+            for st in walk_no_nested(fi.node):
+                if not (isinstance(st, ast.Assign) and len(st.targets) == 1 and isinstance(st.targets[0], ast.Name)):
+                    continue
+                calls = [c for c in ast.walk(st.value) if isinstance(c, ast.Call) and isinstance(c.func, ast.Attribute) and c.func.attr == "Transpose"]
+                if not calls:
+                    continue
+                tc = calls[0]
+                perm_e = next((k.value for k in tc.keywords if k.arg == "perm"), None)
+                if perm_e is None:
+                    continue
+                perm_names = names_in(perm_e) | du.closure(names_in(perm_e))
+                out = st.targets[0].id
+                stamps = [c for c in walk_no_nested(fi.node) if isinstance(c, ast.Call) and (call_name(c) or "").split(".")[-1] == "_stamp_type_and_shape" and len(c.args) >= 2
+                          and isinstance(c.args[0], ast.Name) and c.args[0].id == out and c.lineno >= st.lineno]
+                for sc in stamps[:1]:
+                    n += 1
+                    key = f"{m.rel}::{fi.qualname}::transpose-stamp::{out}"
+                    site = f"{m.rel}:{sc.lineno}"
+                    s_e = sc.args[1]
+                    cands = [s_e] + ([d.value for d in du.defs.get(s_e.id, []) if d.value is not None and (d.stmt is None or d.stmt.lineno <= sc.lineno)] if isinstance(s_e, ast.Name) else [])
+                    verdict = None
+                    for v in cands:
+                        core = v.args[0] if isinstance(v, ast.Call) and (call_name(v) or "") in ("tuple", "list") and v.args else v
+                        if isinstance(core, (ast.GeneratorExp, ast.ListComp)) and len(core.generators) == 1:
+                            g = core.generators[0]
+                            it_names = names_in(g.iter)
+                            idxv = g.target.id if isinstance(g.target, ast.Name) else None
+                            if isinstance(core.elt, ast.Subscript) and isinstance(core.elt.slice, ast.Name) and core.elt.slice.id == idxv and (it_names & perm_names or it_names == names_in(perm_e)):
+                                verdict = ("OK", f"`{src(v, 60)}` gathers the operand's dims through the permutation")
+                                break
+                        if isinstance(v, ast.Call) and len(v.args) == 2:
+                            h = idx.resolve_func(m, call_name(v) or "", cls=fi.cls, scope=fi)
+                            if h is not None and names_in(v.args[1]) & (perm_names | names_in(perm_e)):
+                                try:
+                                    got = Evaluator(idx, {}).call(h, [("a", "b", "c"), [1, 2, 0]])
+                                except (Unsupported, EvalRaise) as e:
+                                    verdict = ("UNRESOLVED", f"helper {h.name}() not evaluable: {e}")
+                                    break
+                                if tuple(got) == ("b", "c", "a"):
+                                    verdict = ("OK", f"{h.name}(shape, perm) gathers: ('a','b','c'), [1,2,0] -> {tuple(got)}")
+                                else:
+                                    verdict = ("VIOLATION", f"{h.name}(('a','b','c'), [1,2,0]) = {tuple(got) if isinstance(got, (list, tuple)) else got!r}, but Transpose(perm=[1,2,0]) yields ('b','c','a'): the helper applies the inverse "
+                                                            "permutation, so for every permutation that is not its own inverse the declared shape of the transposed value contradicts run time")
+                                break
+                        if "aval" in src(v, 200) or "out_shape" in src(v, 80):
+                            verdict = ("OK", "shape taken from the equation's output aval")
+                            break
+                    if verdict is None:
+                        verdict = ("UNRESOLVED", f"shape expression `{src(s_e, 60)}` not classified")
+                    res.add("R-C08j", verdict[0], site, key, verdict[1], fi.qualname)
+    res.analysed["transpose_stamps"] = n
